@@ -178,6 +178,22 @@ impl Property for C11 {
                 p.terms.push(monomial(vec![b, a, a], -c));
             }
         }
+        // a term over three distinct variables whose stored copies cancel: the stored term still "involves
+        // more than two distinct variables", so the QUBO export is refused like for any other cubic term
+        if ids.len() >= 3 && rng.chance(1, 8) {
+            let mut pick = ids.clone();
+            rng.shuffle(&mut pick);
+            let (a, b, c3) = (pick[0], pick[1], pick[2]);
+            let c = coef(rng, regime);
+            let mut terms = stored_terms(&f);
+            terms.push((vec![a, b, c3], c));
+            terms.push((vec![c3, a, b], -c));
+            if rng.bool() {
+                rng.shuffle(&mut terms);
+            }
+            f = f_polynomial(polynomial(terms));
+            mon.facet("cancelling-terms-over-three-variables");
+        }
         // coefficients spanning many orders of magnitude (a huge penalty weight next to ordinary terms)
         if regime == Regime::R && rng.chance(1, 4) {
             let mut terms = stored_terms(&f);
